@@ -213,6 +213,12 @@ func init() {
 	for d := 0; d <= 5; d++ {
 		reg(&explore.Suite{Name: fmt.Sprintf("split3-d%d", d), Cfg: sim.Config{Voters: 3}, Seed: seedSplit,
 			Budget: sim.Budget{Timeouts: 2, Elapses: 2, Beats: 1, Reorders: -1, Splits: 1, Deviations: d}})
+		// S-revote: after S-split n2 voted for n0 (which leads term 3), crashed and
+		// restarted; n1 campaigned again, got n2's prevote and its request for
+		// n2's real vote of term 3 has been answered (refused on a correct library)
+		reg(&explore.Suite{Name: fmt.Sprintf("revote3-d%d", d), Cfg: sim.Config{Voters: 3},
+			Seed:   append(append([]sim.Event{}, seedSplit...), sim.MustParse("rt 0>2:RV#2", "crash n2", "restart n2", "timeout n1", "rt 1>2:RV#3 a=2", "rt 1>2:RV#4")...),
+			Budget: sim.Budget{Timeouts: 1, Elapses: 1, Beats: 1, Writes: 2, Cuts: 1, Reorders: -1, Splits: 1, Deviations: d}})
 		// two candidates of one term, voters that crash and restart, on the real file-backed storages
 		reg(&explore.Suite{Name: fmt.Sprintf("filesplit3-d%d", d), Cfg: sim.Config{Voters: 3, FileStore: true}, Seed: seedSplit,
 			Budget: sim.Budget{Timeouts: 2, Elapses: 2, Beats: 1, Reorders: -1, Splits: 1, Crashes: 1, Restarts: 1, Deviations: d}})
